@@ -82,7 +82,10 @@ def cases(draw):
         kids[empty_named] = ""
     ser = draw(st.sampled_from(["compact", "flattened", "general"]))
     op = draw(st.sampled_from(["consume", "produce"]))
-    kidstate = draw(st.sampled_from(["known", "known", "absent", "unknown", "empty", "mislabelled", "mislabelled"] if op == "consume" else ["known", "known", "absent", "unknown"]))
+    kidstate = draw(st.sampled_from(["known", "known", "absent", "unknown", "unknown-thumbprint", "empty", "mislabelled", "mislabelled"] if op == "consume" else
+                                    ["known", "known", "absent", "unknown", "unknown-thumbprint"]))
+    if kidstate == "unknown-thumbprint" and kids[target] is None:
+        kidstate = "unknown"      # only a key with a kid of its own can be "named" by its thumbprint without being known under it
     if kidstate == "mislabelled" and len(good_idx) < 2:
         kidstate = "known"
     if kidstate == "empty" and "" in kids:
@@ -144,7 +147,9 @@ def build_sets(c):
 
 def header_kid(c):
     kids = eff_kids(c)
-    return {"known": kids[c["target"]], "mislabelled": kids[c["target"]], "absent": None, "unknown": "no-such-kid", "empty": ""}[c["kidstate"]]
+    return {"known": kids[c["target"]], "mislabelled": kids[c["target"]], "absent": None, "unknown": "no-such-kid", "empty": "",
+            # the RFC 7638 thumbprint of a key that the set knows under an explicit kid only: not a kid of this set
+            "unknown-thumbprint": rk.thumbprint(gk.key_from_record(c["keys"][c["target"]]))}[c["kidstate"]]
 
 
 def place(c, base_protected, kid, kidname="kid"):
@@ -246,7 +251,7 @@ def run_case(c) -> dict:
             if err is None:
                 f[f"C14:wrong-key-used:{where}"] = (f"token made under key {kids[c['other']]!r} but labelled kid={kids[c['target']]!r} was accepted: "
                                                     f"the key used is not the one named by kid")
-        elif st_ in ("unknown", "empty"):
+        elif st_ in ("unknown", "empty", "unknown-thumbprint"):
             if err is None:
                 f[f"C14:unknown-kid-accepted:{where}"] = f"token with kid {hk!r} accepted although no key of the set {kids!r} has it"
             elif not isinstance(err, InvalidKeyIdError):
@@ -288,7 +293,7 @@ def run_case(c) -> dict:
         err = None
     except Exception as e:
         tok, err = None, e
-    if c["kidstate"] == "unknown":
+    if c["kidstate"] in ("unknown", "unknown-thumbprint"):
         if err is None:
             f[f"C14:produce-with-unknown-kid-succeeded:{where}"] = f"kid {hk!r} is not in the set {kids!r} but a token was produced"
         elif not isinstance(err, InvalidKeyIdError):
